@@ -23,4 +23,12 @@ CLAIMED = {
    text="Exploration: st_Weyl_down4 is observed on a fresh instance (E/B construction) and after st_Riemann_down4 was cached (Riemann construction), on non-vacuum members with general gauge and on gauge-transformed Minkowski/Kasner with vacuum=True; E/B (n- and u-frame), the five Weyl scalars for both tetrad choices, triad/Lorentz orthonormality, I and J against a randomly Lorentz-rotated harness tetrad, and the Levi-Civita tensors are judged per component class.",
    note="Trusted base as C04; E/B sign conventions are those of the documented u-frame contractions; quasi-Kinnersley invariants judged only on alpha=1, beta=0 members and off the polar axis.",
    ref="2 C10"),
+ "C08": dict(engine="algebra", technique="runtime oracle monitoring: aurel.maths and algebraic AurelCore keys vs numpy.linalg per point, with numpy floating-point exceptions trapped (np.errstate(all='raise')) around every call",
+   text="Exploration: closed-form determinants/inverses, formatting and (anti)symmetrisation on random matrices of four conditioning classes, six shapes (incl. 1-point axes, 0-d) and two dtypes, as arrays and as component lists; 40 algebraic AurelCore keys plus ten defining identities on random lapse/shift/SPD metric/K given as tensors or as components (both gdet arms); safe_division over ~4.5k operand-kind pairs with the FP trap armed; populate_4Riemann placement and exact symmetries; symmetries of the curvature outputs that are exact by construction.",
+   note="Reference numpy.linalg; tolerance max(1e4*eps*cond, 100*eps*cond^2) because cofactor inverses are not backward stable (cond<=2e4 in the generators).",
+   ref="2 C08"),
+ "C09": dict(engine="jets", technique="runtime oracle monitoring: fluid/projection keys vs harness closed forms at every grid point for four documented input combinations",
+   text="Exploration: 40 fluid, stress-energy, Eulerian-projection and conserved keys are observed for inputs {rho0+eps+press+W+v, rho only, rho+rho0, Tdown4 direct} on 3+1 backgrounds with shift, non-unit lapse and sheared metrics, |v| up to 0.99, rest-mass density with exact zeros; both request orders (fresh / Tdown4 and st_Ricci_down4 first) so both arms of Ttrace and st_Ricci_down3 are reached.",
+   note="Closed forms in numpy; tolerance 1e-9*max|expected| + 1e-12.",
+   ref="2 C09"),
 }
